@@ -493,6 +493,9 @@ func (e *Ev) callStatic(fn *types.Func, recv *Term, args []Term, n *ast.CallExpr
 		goto done
 	}
 	for _, c := range append(b.clauses("ensures"), b.clauses("trusted_ensures")...) {
+		if !assumableAtCallSite(c) {
+			continue
+		}
 		if c.Kind == "trusted_ensures" {
 			e.g().Assumed["assumed postcondition of "+key+" (not proved): "+c.Text] = true
 		}
@@ -1133,6 +1136,13 @@ func (e *Ev) calleePanic(cond, why string, n ast.Node, modItems []string, ce *Ev
 		return
 	}
 	e.panicIf(cond, why, n)
+}
+
+// assumableAtCallSite: a postcondition over the callee's own ghost call counters (calls("KEY"))
+// says nothing about the caller's counters and must not be assumed in the caller's state (there
+// it would read e.g. `0 == 1` and make the rest of the path vacuous: DESIGN 11.6 E14).
+func assumableAtCallSite(c Clause) bool {
+	return !strings.Contains(c.Text, "calls(")
 }
 
 // callCount: the ghost counter of calls to key on this path. After a loop head the counters are
